@@ -291,3 +291,256 @@ Proof.
           exists [101; 45; 49; 48; 55], 52. split; [reflexivity|unfold digitc; lia]. }
     destruct He as (a & c & Heq & Hc). exists a, c. split; [exact Heq|]. unfold digitc in Hc. lia.
 Qed.
+
+(* ---------------------------------------------------------------- parse_time on the renderings *)
+
+(* "<body>ms" is read as float(body) / 1000 *)
+Lemma timeout_parse_ms : forall body,
+  timeout_parse (body ++ [109; 115]) =
+  match py_float body with Some x => f_div x (f_of_Z 1000) | None => None end.
+Proof.
+  intros body. unfold timeout_parse, parse_time. rewrite timeout_default_unit_ok.
+  unfold time_units. cbn [parse_time_units]. rewrite endswith_app.
+  rewrite (firstn_strip_suffix body [109; 115] (Z.to_nat 2)) by reflexivity.
+  destruct (py_float body); reflexivity.
+Qed.
+
+(* "<body>s" with body not ending in 'm' is read as float(body) *)
+Lemma timeout_parse_s : forall a c, (c =? 109) = false ->
+  timeout_parse ((a ++ [c]) ++ [115]) = py_float (a ++ [c]).
+Proof.
+  intros a c Hc. unfold timeout_parse, parse_time. rewrite timeout_default_unit_ok.
+  unfold time_units. cbn [parse_time_units].
+  assert (E1 : endswith ((a ++ [c]) ++ [115]) [109; 115] = false).
+  { rewrite <- app_assoc. cbn [app]. apply endswith_2_false. exact Hc. }
+  rewrite E1. rewrite endswith_app.
+  rewrite (firstn_strip_suffix (a ++ [c]) [115] (Z.to_nat 1)) by reflexivity.
+  destruct (py_float (a ++ [c])); reflexivity.
+Qed.
+
+(* ---------------------------------------------------------------- denotation *)
+
+Lemma same_tval_refl : forall t, same_tval t t.
+Proof. intros [| |q]; cbn; [exact I|reflexivity|apply Qeq_refl]. Qed.
+
+Lemma f_eqb_same_tval : forall x y, f_eqb x y = true -> same_tval (f_denote x) (f_denote y).
+Proof.
+  intros x y H. destruct x as [|a|a k1], y as [|b|b k2]; cbn in H; try discriminate.
+  - apply Bool.eqb_prop in H. exact H.
+  - apply Z.eqb_eq in H. cbn [f_denote same_tval]. unfold Qeq. cbn [Qnum Qden]. rewrite H. reflexivity.
+Qed.
+
+Definition parse_denote (s : list Z) : option tval := option_map f_denote (timeout_parse s).
+
+(* the exact rendering <repr>s survives for every float *)
+Lemma exact_rendering_faithful : forall v, valid_f64 v ->
+  faithful_rendering parse_denote (float_repr v ++ timeout_unparse_exact_suffix) (f_denote v).
+Proof.
+  intros v Hv. destruct (float_repr_last v Hv) as (a & c & Heq & Hc).
+  unfold faithful_rendering, parse_denote, timeout_unparse_exact_suffix.
+  rewrite Heq, (timeout_parse_s a c Hc), <- Heq, (float_repr_roundtrip v Hv).
+  eexists. split; [reflexivity|apply same_tval_refl].
+Qed.
+
+(* ---------------------------------------------------------------- float facts for unparse *)
+
+Lemma f_div_fin : forall a k1 b k2, k2 <> 0 ->
+  f_div (FFin a k1) (FFin b k2) = Some (f_of_ratio (xorb a b) k1 k2).
+Proof. intros a k1 b k2 H. destruct k2; [contradiction|reflexivity|reflexivity]. Qed.
+
+Lemma representable_0 : representable 0.
+Proof. split; [lia|]. apply Z.mod_0_l. pose proof (pow2_pos _ (f_shift_nonneg 0)). lia. Qed.
+
+Lemma F_TOP_pos : 0 < F_TOP.
+Proof. rewrite F_TOP_eq. pose proof F_UNIT_pos. assert (0 < 2 ^ 1024) by (apply Z.pow_pos_nonneg; lia). nia. Qed.
+
+Lemma f_of_ratio_0 : forall neg d, 0 < d -> f_of_ratio neg 0 d = FFin neg 0.
+Proof.
+  intros neg d Hd. unfold f_of_ratio. rewrite (round_mag_exact 0 d 0); [|exact Hd|lia|exact representable_0].
+  apply f_mk_fin. exact F_TOP_pos.
+Qed.
+
+Lemma f_of_Z_1000 : f_of_Z 1000 = FFin false (1000 * F_UNIT).
+Proof. apply f_of_Z_small. split; [lia|reflexivity]. Qed.
+
+Lemma inf_literal : py_float timeout_unparse_inf_literal = Some (FInf false).
+Proof. vm_compute. reflexivity. Qed.
+
+(* the integer i with (signed magnitude of ms) = i * 2^1074 converts back to ms, except that the
+   sign of a zero is lost *)
+Lemma f_of_Z_of_integral : forall nb kb i, representable kb -> kb < F_TOP ->
+  f_signed nb kb = i * F_UNIT ->
+  f_of_Z i = FFin (if i =? 0 then false else nb) kb.
+Proof.
+  intros nb kb i Hr Ht Hs. pose proof F_UNIT_pos as HU. destruct Hr as [Hk Hm].
+  assert (Habs : Z.abs i * F_UNIT = kb) by (destruct nb; cbn [f_signed] in Hs; nia).
+  rewrite f_of_Z_exact; rewrite Habs; [|split; assumption|exact Ht].
+  f_equal. destruct (i =? 0) eqn:E0; [lia|].
+  destruct nb; cbn [f_signed] in Hs; [apply Z.ltb_lt|apply Z.ltb_ge]; nia.
+Qed.
+
+
+(* ---------------------------------------------------------------- the round trip *)
+
+(* the part of unparse after the whole-seconds test *)
+Definition unparse_tail (v : f64) : option (list Z) :=
+  let ms := f_mul v (f_of_Z timeout_unparse_small_factor) in
+  match f_trunc ms with
+  | None => None
+  | Some i =>
+      match (if f_eqb_Z ms i
+             then option_map (fun q => f_eqb q v) (f_div ms (f_of_Z timeout_unparse_small_divisor))
+             else Some false) with
+      | None => None
+      | Some true => Some (str_of_Z i ++ timeout_unparse_small_suffix)
+      | Some false => Some (float_repr v ++ timeout_unparse_exact_suffix)
+      end
+  end.
+
+Lemma unparse_tail_faithful : forall neg k s, valid_f64 (FFin neg k) -> unparse_tail (FFin neg k) = Some s ->
+  faithful_rendering parse_denote s (f_denote (FFin neg k)).
+Proof.
+  intros neg k s Hv H. pose proof F_UNIT_pos as HU. pose proof Hv as [Hr Ht]. pose proof Hr as [Hk Hm].
+  unfold unparse_tail, timeout_unparse_small_factor, timeout_unparse_small_divisor in H.
+  rewrite f_of_Z_1000 in H. cbv zeta in H.
+  assert (Hmsv : valid_f64 (f_mul (FFin neg k) (FFin false (1000 * F_UNIT)))).
+  { apply f_mul_valid; [exact Hv|]. rewrite <- f_of_Z_1000. unfold f_of_Z. apply f_of_ratio_valid; lia. }
+  destruct (f_mul (FFin neg k) (FFin false (1000 * F_UNIT))) as [|nb|nb kb] eqn:Hms; cbn [f_trunc] in H; try discriminate.
+  destruct Hmsv as [Hrb Htb].
+  set (i := Z.quot (f_signed nb kb) F_UNIT) in *.
+  destruct (f_eqb_Z (FFin nb kb) i) eqn:Hint.
+  - rewrite f_div_fin in H by lia. cbn [option_map] in H.
+    destruct (f_eqb (f_of_ratio (xorb nb false) kb (1000 * F_UNIT)) (FFin neg k)) eqn:Hback.
+    + (* whole milliseconds *)
+      injection H as <-. cbn [f_eqb_Z] in Hint. apply Z.eqb_eq in Hint.
+      unfold timeout_unparse_small_suffix, faithful_rendering, parse_denote.
+      rewrite timeout_parse_ms, py_float_str_of_Z, f_of_Z_1000.
+      rewrite (f_of_Z_of_integral nb kb i Hrb Htb Hint).
+      rewrite f_div_fin by lia. cbn [option_map].
+      destruct (i =? 0) eqn:Hi0.
+      * (* ms is a zero: its sign is lost, the value is not *)
+        assert (Hkb : kb = 0) by (destruct nb; cbn [f_signed] in Hint; nia). subst kb.
+        rewrite f_of_ratio_0 in * by lia.
+        eexists. split; [reflexivity|].
+        cbn [f_eqb] in Hback. apply Z.eqb_eq in Hback.
+        cbn [f_denote same_tval]. unfold Qeq. cbn [Qnum Qden].
+        rewrite <- Hback. destruct nb; reflexivity.
+      * eexists. split; [reflexivity|]. apply f_eqb_same_tval. exact Hback.
+    + injection H as <-. exact (exact_rendering_faithful (FFin neg k) Hv).
+  - injection H as <-. exact (exact_rendering_faithful (FFin neg k) Hv).
+Qed.
+
+Theorem timeout_roundtrip : forall v s, valid_f64 v -> timeout_unparse v = Some s ->
+  faithful_rendering parse_denote s (f_denote v).
+Proof.
+  intros v s Hv H. unfold timeout_unparse in H. rewrite inf_literal in H.
+  pose proof F_UNIT_pos as HU.
+  destruct v as [|neg|neg k].
+  - (* nan *) cbn [f_eqb] in H. injection H as <-. exact (exact_rendering_faithful FNan I).
+  - (* inf *) replace (f_eqb (FInf neg) (FInf neg)) with true in H by (cbn; rewrite Bool.eqb_reflx; reflexivity).
+    cbn [f_abs f_eqb Bool.eqb negb] in H. injection H as <-. exact (exact_rendering_faithful (FInf neg) I).
+  - replace (f_eqb (FFin neg k) (FFin neg k)) with true in H by (cbn; rewrite Z.eqb_refl; reflexivity).
+    cbn [f_abs f_eqb negb f_trunc option_map] in H.
+    pose proof Hv as [Hr Ht]. pose proof Hr as [Hk Hm].
+    destruct (f_geb_Z (FFin neg k) timeout_unparse_threshold) eqn:Hge;
+      [destruct (f_eqb_Z (FFin neg k) (Z.quot (f_signed neg k) F_UNIT)) eqn:Heq|];
+      [|exact (unparse_tail_faithful neg k s Hv H)..].
+    (* whole seconds *)
+    injection H as <-.
+    unfold timeout_unparse_threshold in Hge. cbn [f_geb_Z] in Hge. cbn [f_eqb_Z] in Heq.
+    apply Z.leb_le in Hge. apply Z.eqb_eq in Heq.
+    set (i := Z.quot (f_signed neg k) F_UNIT) in *.
+    assert (Hneg : neg = false) by (destruct neg; [cbn [f_signed] in Hge; lia|reflexivity]). subst neg.
+    cbn [f_signed] in *. assert (Hi : 1 <= i) by nia.
+    unfold timeout_unparse_large_suffix.
+    destruct (str_of_Z_ends_digit i) as (a & c & Hstr & Hc).
+    unfold faithful_rendering, parse_denote. rewrite Hstr.
+    rewrite timeout_parse_s by (unfold digitc in Hc; lia). rewrite <- Hstr, py_float_str_of_Z.
+    rewrite (f_of_Z_of_integral false k i Hr Ht Heq).
+    replace (i =? 0) with false by lia.
+    eexists. split; [reflexivity|apply same_tval_refl].
+Qed.
+
+(* ---------------------------------------------------------------- when unparse returns *)
+
+(* a non-negative finite float that is not a whole number >= 1 is below 2^52 *)
+Lemma non_integral_small : forall k, representable k -> k <> Z.quot k F_UNIT * F_UNIT -> k < F_UNIT * 2 ^ 52.
+Proof.
+  intros k [Hk Hm] Hni. pose proof F_UNIT_pos as HU.
+  destruct (Z_lt_le_dec k (F_UNIT * 2 ^ 52)) as [Hlt|Hge]; [exact Hlt|]. exfalso. apply Hni.
+  assert (Hpow : 2 ^ 1126 <= k) by (rewrite <- pow2_1074 in Hge; rewrite <- Z.pow_add_r in Hge by lia; exact Hge).
+  assert (Hk0 : 0 < k) by (assert (0 < 2 ^ 1126) by (apply Z.pow_pos_nonneg; lia); lia).
+  assert (Hlog : 1126 <= Z.log2 k) by (apply Z.log2_le_pow2; assumption).
+  assert (Hs : f_shift k = 1074 + (Z.log2 k - 1126)) by (unfold f_shift; lia).
+  rewrite Hs, Z.pow_add_r, pow2_1074 in Hm by lia.
+  set (t := 2 ^ (Z.log2 k - 1126)) in *. assert (Ht : 0 < t) by (apply Z.pow_pos_nonneg; lia).
+  assert (Hdiv : k = F_UNIT * (t * (k / (F_UNIT * t)))).
+  { pose proof (Z.div_mod k (F_UNIT * t) ltac:(nia)) as Hd. rewrite Hm in Hd. lia. }
+  rewrite Z.quot_div_nonneg by lia.
+  set (m := t * (k / (F_UNIT * t))) in *. clearbody m.
+  assert (Hq : m = k / F_UNIT) by (apply Z.div_unique_exact; [lia|exact Hdiv]).
+  rewrite <- Hq. lia.
+Qed.
+
+Lemma ms_finite : forall k, 0 <= k -> k < F_UNIT * 2 ^ 52 ->
+  exists kb, f_mul (FFin false k) (FFin false (1000 * F_UNIT)) = FFin false kb.
+Proof.
+  intros k Hk Hlt. pose proof F_UNIT_pos as HU. cbn [f_mul xorb]. unfold f_of_ratio.
+  eexists. apply f_mk_fin.
+  pose proof (round_mag_bound (k * (1000 * F_UNIT)) (F_UNIT * F_UNIT) ltac:(nia) ltac:(nia)) as Hb.
+  replace (k * (1000 * F_UNIT) * F_UNIT) with (k * 1000 * (F_UNIT * F_UNIT)) in Hb by ring.
+  rewrite Z.div_mul in Hb by nia.
+  rewrite F_TOP_eq.
+  assert (Hc : 2000 * 2 ^ 52 + 1 <= 2 ^ 1024) by (apply Z.leb_le; vm_compute; reflexivity).
+  set (a := 2 ^ 52) in *. set (b := 2 ^ 1024) in *. nia.
+Qed.
+
+(* unparse returns for every non-negative float (and nan) *)
+Theorem timeout_unparse_total_nonneg : forall v, valid_f64 v -> f_neg v = false ->
+  timeout_unparse v <> None.
+Proof.
+  intros v Hv Hn. unfold timeout_unparse. rewrite inf_literal. pose proof F_UNIT_pos as HU.
+  destruct v as [|neg|neg k].
+  - cbn [f_eqb]. discriminate.
+  - replace (f_eqb (FInf neg) (FInf neg)) with true by (cbn; rewrite Bool.eqb_reflx; reflexivity).
+    cbn [f_abs f_eqb Bool.eqb negb]. discriminate.
+  - cbn [f_neg] in Hn. subst neg. destruct Hv as [Hr Ht]. pose proof Hr as [Hk Hm].
+    replace (f_eqb (FFin false k) (FFin false k)) with true by (cbn; rewrite Z.eqb_refl; reflexivity).
+    cbn [f_abs f_eqb negb f_trunc option_map f_signed].
+    assert (Htail : k < F_UNIT * 2 ^ 52 ->
+      match f_trunc (f_mul (FFin false k) (f_of_Z timeout_unparse_small_factor)) with
+      | Some i =>
+          match (if f_eqb_Z (f_mul (FFin false k) (f_of_Z timeout_unparse_small_factor)) i
+                 then option_map (fun q => f_eqb q (FFin false k))
+                        (f_div (f_mul (FFin false k) (f_of_Z timeout_unparse_small_factor))
+                               (f_of_Z timeout_unparse_small_divisor))
+                 else Some false) with
+          | Some true => Some (str_of_Z i ++ timeout_unparse_small_suffix)
+          | Some false => Some (float_repr (FFin false k) ++ timeout_unparse_exact_suffix)
+          | None => None
+          end
+      | None => None
+      end <> None).
+    { intros Hlt. unfold timeout_unparse_small_factor, timeout_unparse_small_divisor. rewrite f_of_Z_1000.
+      destruct (ms_finite k Hk Hlt) as (kb & ->). cbn [f_trunc].
+      destruct (f_eqb_Z (FFin false kb) (Z.quot (f_signed false kb) F_UNIT)); [|discriminate].
+      rewrite f_div_fin by lia. cbn [option_map].
+      destruct (f_eqb _ _); discriminate. }
+    destruct (f_geb_Z (FFin false k) timeout_unparse_threshold) eqn:Hge.
+    + destruct (f_eqb_Z (FFin false k) (Z.quot k F_UNIT)) eqn:Heq; [discriminate|].
+      apply Htail. apply non_integral_small; [exact Hr|].
+      cbn [f_eqb_Z f_signed] in Heq. apply Z.eqb_neq in Heq. exact Heq.
+    + apply Htail. unfold timeout_unparse_threshold in Hge. cbn [f_geb_Z f_signed] in Hge.
+      apply Z.leb_gt in Hge. assert (1 <= 2 ^ 52) by (apply Z.leb_le; reflexivity). nia.
+Qed.
+
+(* ... but not for every negative one: -1e306 is a value parse produces, and unparse raises on it
+   (value * 1000 overflows to -inf and int(-inf) raises OverflowError) *)
+Theorem timeout_unparse_negative_overflow_refuted :
+  exists s v, timeout_parse s = Some v /\ valid_f64 v /\ f_neg v = true /\ timeout_unparse v = None.
+Proof.
+  exists [45; 49; 101; 51; 48; 54; 115]. eexists.
+  split; [vm_compute; reflexivity|].
+  split; [split; [split; [vm_compute; discriminate|vm_compute; reflexivity]|vm_compute; reflexivity]|].
+  split; [reflexivity|vm_compute; reflexivity].
+Qed.
